@@ -1267,6 +1267,12 @@ pub fn check_c09_bytes(ctx: &mut Ctx, input: &[u8]) {
         if p.data() != b {
             return Err("data: Unknown::data() differs from the input".into());
         }
+        // "the byte range found at the offset the RFC assigns": the packet is the 4 * (length field + 1) bytes from
+        // the start of the input; bytes of the slice behind them belong to something else
+        let h = 4 * (dec::be16(b, 2) as usize + 1);
+        if p.data().len() != h {
+            return Err(format!("data-extent: Unknown::data() has {} bytes although the header describes a packet of {h}", p.data().len()));
+        }
         within(b, p.data(), 0, "data")?;
         Ok(Some(()))
     });
